@@ -1,7 +1,7 @@
 //! History spaces for the progressive muxer (accepted-only histories used by the file-level
 //! properties C01/C02/C03/C08/C15/C18). Pure generation, no muxide.
 
-use crate::frames::{audio_frame, video_frame, ACodec, VCodec, ACODECS, VCODECS};
+use crate::frames::{audio_frame, video_frame, ACodec, ACODECS, VCODECS};
 use crate::model::{AudioCfg, Bytes, Cfg, Meta, Op, T};
 use crate::refmodel::tick_is_robust;
 
